@@ -71,7 +71,12 @@ class PackageLoader(BaseLoader):
 
         for path in self.paths:
             source_path = path.joinpath(str(template_path))
-            if source_path.is_file():
+            try:
+                is_file = source_path.is_file()
+            except OSError:
+                # The OS rejected the path. The name is too long, for example.
+                continue
+            if is_file:
                 # MyPy seems to think source_path has `Any` type :(
                 return source_path  # type: ignore
 
